@@ -8,6 +8,7 @@
 //!   exec-plan FILE          execute a plan file, print the verdict (crash-isolation child)
 
 mod adapters;
+mod arith;
 mod engine;
 mod exec;
 mod gen;
